@@ -108,6 +108,10 @@ private:
 
   RLBOX_SHARED_LOCK(func_ptr_cache_lock);
   std::map<std::string, void*> func_ptr_map;
+  // Results of internal_lookup_symbol. These can differ from the results of
+  // lookup_symbol for plugins that set needs_internal_lookup_symbol, so they
+  // need their own cache
+  std::map<std::string, void*> internal_func_ptr_map;
 
   app_pointer_map<typename T_Sbx::T_PointerType> app_ptr_map;
 
@@ -450,6 +454,7 @@ public:
       // the next one (create_sandbox may bind a different library)
       RLBOX_ACQUIRE_UNIQUE_GUARD(lock, func_ptr_cache_lock);
       func_ptr_map.clear();
+      internal_func_ptr_map.clear();
     }
 
     sandbox_created.store(Sandbox_Status::NOT_CREATED);
@@ -722,8 +727,8 @@ public:
     {
       RLBOX_ACQUIRE_SHARED_GUARD(lock, func_ptr_cache_lock);
 
-      auto func_ptr_ref = func_ptr_map.find(func_name);
-      if (func_ptr_ref != func_ptr_map.end()) {
+      auto func_ptr_ref = internal_func_ptr_map.find(func_name);
+      if (func_ptr_ref != internal_func_ptr_map.end()) {
         return func_ptr_ref->second;
       }
     }
@@ -736,7 +741,7 @@ public:
       func_ptr = this->impl_lookup_symbol(func_name);
     }
     RLBOX_ACQUIRE_UNIQUE_GUARD(lock, func_ptr_cache_lock);
-    func_ptr_map[func_name] = func_ptr;
+    internal_func_ptr_map[func_name] = func_ptr;
     return func_ptr;
   }
 
